@@ -81,6 +81,27 @@ func negY(curve string, pt []byte) []byte {
 	return append(out, y.FillBytes(make([]byte, n))...)
 }
 
+// negScalar returns n - sk (big endian, same width) for a private scalar of a
+// NIST curve: another private key (public key -Q) with the same ECDH x coordinate.
+func negScalar(curve string, sk []byte) []byte {
+	var c elliptic.Curve
+	switch curve {
+	case "p256":
+		c = elliptic.P256()
+	case "p384":
+		c = elliptic.P384()
+	case "p521":
+		c = elliptic.P521()
+	default:
+		return nil
+	}
+	d := new(big.Int).SetBytes(sk)
+	if d.Sign() == 0 || d.Cmp(c.Params().N) >= 0 {
+		return nil
+	}
+	return new(big.Int).Sub(c.Params().N, d).FillBytes(make([]byte, len(sk)))
+}
+
 // X25519 public values of small order (X25519 rejects them: all-zero output)
 var x25519LowOrder = []string{
 	"0000000000000000000000000000000000000000000000000000000000000000",
@@ -136,7 +157,12 @@ func randID(r *hx.Rng, v string) uint32 {
 }
 
 // mutations of a ciphertext with layout prefix(np) || header(nh) || payload
-func genMuts(r *hx.Rng, tc, info []byte, np, nh int, otherSK func() []byte, otherHeader func() []byte) string {
+//
+// Every line carries one directed mutation per binding clause of the property
+// (encapsulated key / KEM bytes, context info, payload, tag, prefix when there
+// is one, another private key of the same KEM family; negKey, when given, is
+// the negated private key n-d), followed by random ones.
+func genMuts(r *hx.Rng, tc, info []byte, np, nh int, otherSK func() []byte, otherHeader func() []byte, negKey []byte) string {
 	n := len(tc)
 	var ms []string
 	flip := func(lo, hi int) {
@@ -153,7 +179,33 @@ func genMuts(r *hx.Rng, tc, info []byte, np, nh int, otherSK func() []byte, othe
 	if nh > 0 && np+nh <= n {
 		ms = append(ms, fmt.Sprintf("f%d.80", np+nh-1), fmt.Sprintf("f%d.80", np))
 	}
-	k := 7 + r.Intn(3)
+	// directed: info, payload, tag, prefix, other private key
+	{
+		i2 := append(append([]byte{}, info...), byte(r.Intn(256)))
+		if len(info) > 0 && r.Bool() {
+			i2 = append([]byte{}, info...)
+			i2[r.Intn(len(i2))] ^= byte(1 << uint(r.Intn(8)))
+		}
+		ms = append(ms, "i"+hx.H(i2))
+	}
+	flip(np+nh, n-16)
+	flip(n-16, n)
+	if np > 0 {
+		p := append([]byte{}, tc[:np]...)
+		if r.Bool() {
+			p[0] ^= 1
+		} else {
+			p[1+r.Intn(4)] ^= byte(1 + r.Intn(255))
+		}
+		ms = append(ms, "r0."+hx.H(p))
+	}
+	if otherSK != nil {
+		ms = append(ms, "k"+hx.H(otherSK()))
+	}
+	if negKey != nil {
+		ms = append(ms, "n"+hx.H(negKey))
+	}
+	k := len(ms) + 3 + r.Intn(3)
 	for len(ms) < k {
 		switch r.Intn(14) {
 		case 0:
@@ -327,7 +379,9 @@ func genHPKE(r *hx.Rng, suite string) string {
 			return pubOfScalar(kem, validScalar(r, kem))
 		}
 	}
-	muts := genMuts(r, tc, info, len(p.priv.OutputPrefix()), hpkeNenc[kem], func() []byte { return hpkeValidSK(r, kem) }, otherHeader)
+	// DHKEM over a NIST curve: the negated private key has the same ECDH x coordinate but
+	// another public key, which is part of the KEM context: must be rejected
+	muts := genMuts(r, tc, info, len(p.priv.OutputPrefix()), hpkeNenc[kem], func() []byte { return hpkeValidSK(r, kem) }, otherHeader, negScalar(kem, sk))
 	return fmt.Sprintf("C06|H|%s|%d|%s|%s|%s|%s|%s|!|%s|%s|%s", suite, id, hx.H(sk), hx.H(info), hx.H(pt), hx.H(tc), hx.H(eph), ft, feph, muts)
 }
 
